@@ -233,15 +233,21 @@ def build_model(comp):
     bdir = os.path.join(OCAML, 'build', comp)
     os.makedirs(bdir, exist_ok=True)
     exe = os.path.join(bdir, 'model_' + comp)
-    srcs = [(gen_ml, 'model.ml'), (gen_ml + 'i', 'model.mli'), (os.path.join(OCAML, 'wire.ml'), 'wire.ml'),
-            (os.path.join(OCAML, 'comp_%s.ml' % comp), 'comp.ml'), (os.path.join(OCAML, 'main.ml'), 'main.ml')]
+    # optional ocaml/comp_<comp>.deps: extra shared glue modules (e.g. sexp.ml tok_wire.ml ast_wire.ml), in link order
+    extra = []
+    deps = os.path.join(OCAML, 'comp_%s.deps' % comp)
+    if os.path.exists(deps):
+        extra = [x for x in open(deps).read().split() if x]
+    srcs = [(gen_ml, 'model.ml'), (gen_ml + 'i', 'model.mli'), (os.path.join(OCAML, 'wire.ml'), 'wire.ml')]
+    srcs += [(os.path.join(OCAML, x), x) for x in extra]
+    srcs += [(os.path.join(OCAML, 'comp_%s.ml' % comp), 'comp.ml'), (os.path.join(OCAML, 'main.ml'), 'main.ml')]
     newest = max(os.path.getmtime(s) for s, _ in srcs)
     if os.path.exists(exe) and os.path.getmtime(exe) >= newest:
         return exe
     for s, d in srcs:
         shutil.copyfile(s, os.path.join(bdir, d))
-    rc, out = sh('ocamlfind ocamlopt -O2 -w -a -package str -linkpkg model.mli model.ml wire.ml comp.ml main.ml -o model_%s' % comp,
-                 cwd=bdir, timeout=900)
+    rc, out = sh('ocamlfind ocamlopt -O2 -w -a -package str -linkpkg model.mli model.ml wire.ml %s comp.ml main.ml -o model_%s'
+                 % (' '.join(extra), comp), cwd=bdir, timeout=900)
     if rc != 0:
         raise RuntimeError('ocaml build of %s failed:\n%s' % (comp, out[-3000:]))
     return exe
@@ -254,6 +260,11 @@ def extraction_stale(comp):
 
 def build_harness(profile='release'):
     flag = '--release' if profile == 'release' else ''
+    # Cargo.toml is generated so that the path dependencies follow VERIF_REPO (scratch worktrees)
+    tmpl = open(os.path.join(HARNESS, 'Cargo.toml.in')).read().replace('@REPO@', REPO)
+    ct = os.path.join(HARNESS, 'Cargo.toml')
+    if not os.path.exists(ct) or open(ct).read() != tmpl:
+        open(ct, 'w').write(tmpl)
     lock = os.path.join(HARNESS, 'Cargo.lock')
     if not os.path.exists(lock):
         shutil.copyfile(os.path.join(REPO, 'Cargo.lock'), lock)
